@@ -47,9 +47,7 @@ FIELD_TYPES = {
 LOCAL_TYPES = {
     (BASE + ".resume_from_pickled_sampler", "sampler"): [NS, INS],  # the unpickled sampler (documented: "Pickled sampler")
     (BASE + ".resume", "sampler"): [NS, INS],  # pickle.load of a checkpoint written by checkpoint()
-    (NS + ".resume_from_pickled_sampler", "obj"): [NS],  # return value of the base classmethod called through super(NestedSampler, cls)
     (NS + ".resume_from_pickled_sampler", "sampler"): [NS],
-    (INS + ".resume_from_pickled_sampler", "obj"): [INS],  # same for the importance sampler
     (INS + ".resume_from_pickled_sampler", "sampler"): [INS],
 }
 
